@@ -11,6 +11,7 @@ class Ops:
         self.w = world
         self.V = world.V
         self._ent_cache = {}
+        self.spec_depth = 0      # > 0 while a contract expression is translated: no solver calls for typing then
 
     # ------------------------------------------------------------ constructors
     def none(self):
@@ -175,6 +176,8 @@ class Ops:
         """Static type of sv: the hint, or a primitive/ref tag the pc entails (None if unknown)."""
         if sv.ty is not None and not sv.ty.startswith("opt:") and "|" not in sv.ty:
             return sv.ty
+        if self.spec_depth > 0:
+            return None
         for t in candidates:
             if self.entails(st, self.is_type(sv.e, t), cheap=True):
                 return t
@@ -195,6 +198,8 @@ class Ops:
             for o in options:
                 if self.w.src.is_subclass(c, o):
                     return o
+        if self.spec_depth > 0:
+            return None
         for o in options:
             if self.entails(st, self.is_type(sv.e, "ref:" + o), cheap=True):
                 return o
